@@ -9,6 +9,11 @@ pub const HALT_WORD: u16 = 0xF025;
 /// What the HALT routine prints (decorative banner, fixed by the repository's own tests).
 pub const HALT_BANNER: &[u8] = b"\n      Halted\n";
 
+/// What the HALT trap prints on the tree under test (C03 lists OUT, PUTS, PUTSP, PUTN and REG as
+/// specified output; the wording of the HALT message is the tool's own business): learned from
+/// one run of a HALT-only program, `HALT_BANNER` until then.
+pub static HALT_TEXT: std::sync::OnceLock<Vec<u8>> = std::sync::OnceLock::new();
+
 pub type Mem = Box<[u16; 0x10000]>;
 
 pub fn new_mem() -> Mem {
@@ -591,7 +596,7 @@ impl Vm {
             }
             0x25 => {
                 self.pc = HALT_PC;
-                io.output.extend_from_slice(HALT_BANNER);
+                io.output.extend_from_slice(HALT_TEXT.get().map(|t| &t[..]).unwrap_or(HALT_BANNER));
             }
             0x26 => {
                 let text = format!("{}", self.reg[0] as i16);
